@@ -160,6 +160,7 @@ class Run(object):
         self.p = Stepped(self.sock, max_pdu_length)
         self.trace = [{'ev': 'Start', 'req': bool(req)}]
         self.transit = bytearray()
+        self.fin_pending = False
         self.gens = []
         self.died = None
         self.hung = None
@@ -197,11 +198,15 @@ class Run(object):
         s.rx += self.transit[:n]
         del self.transit[:n]
         self.trace.append({'ev': 'Arrive', 'n': n})
+        if self.fin_pending and not self.transit:
+            s.peer_fin = True          # the FIN travels behind the data
         return n
 
     def peer_fin(self):
         s = self._cur_sock()
-        s.peer_fin = True
+        self.fin_pending = True
+        if not self.transit:
+            s.peer_fin = True
         self.trace.append({'ev': 'PeerFin'})
 
     def peer_reset(self):
@@ -349,6 +354,8 @@ class Run(object):
 
     def quiescent(self):
         s = self._cur_sock()
+        if self.p.dul_socket is not None and self.state() not in (4, 13) and W.split_stream(bytes(self.p.raw_pdu))[0]:
+            return False          # a whole PDU is still buffered
         return (not self.p.event and self.p.from_service_user.empty() and
                 (self.p.dimse_gen is None or self.p.dimse_gen.remaining() == 0) and
                 (s is None or not s.readable() or self.p.dul_socket is None) and
